@@ -7,6 +7,7 @@ the constructor model of property C01 (Model/Slim.lean).  libm enters through th
 and `IsSqrt`, discharged for the real functions at the end.
 -/
 import Model.Decorators
+import Model.DecoratorsConfig
 import Proofs.Decorators
 import Proofs.DecoratorsRadial
 import Proofs.DecoratorsProjection
@@ -223,5 +224,41 @@ example :
     relocatePoint (fun (x : Rat) => if x = 1/4 then 1/2 else x) (1/2) 1 ((3/10 : Rat), 2/5) (1/2)
       = (3/5, 4/5) := by
   decide +kernel
+
+/-! ## (e) configuration in force at call time (round 5/6 hardening)
+
+`Grid2D.grid_2d_radial_projected_from` reads `general.grid.remove_projected_centre` when its keyword is
+not given; `project_grid` never gives it.  (Model/DecoratorsConfig.lean.) -/
+
+section config
+variable {α : Type} [Add α] [Sub α] [Mul α] [Div α] [OfNat α 0] [LT α] [DecidableLT α] [BEq α]
+
+/-- under `project_grid` a `Grid2D` reaches the function as the projected line of `projected_line_2d`
+    when the configuration value is off and as that line without its first point (the centre) when it is
+    on — whatever the value was at an earlier call; an irregular grid and a `Grid1D` never depend on it. -/
+theorem projected_line_follows_config (T : Trig α) (trunc : α → Nat) (ninety : α)
+    (extent : α × α × α × α) (scales centre : α × α) (angle : α) (m : Mask) (pts : List (α × α))
+    (mask : List Bool) (xs : List α) :
+    projectGridInputCfg T trunc ninety extent scales centre angle false (.uniform m pts)
+        = projectGridInput T trunc ninety extent scales centre angle (.uniform m pts)
+    ∧ projectGridInputCfg T trunc ninety extent scales centre angle true (.uniform m pts)
+        = (projectGridInput T trunc ninety extent scales centre angle (.uniform m pts)).drop 1
+    ∧ ∀ c, projectGridInputCfg T trunc ninety extent scales centre angle c (.irregular pts) = pts
+        ∧ projectGridInputCfg T trunc ninety extent scales centre angle c (.oned mask xs)
+            = projectGridInput T trunc ninety extent scales centre angle (.oned mask xs) := by
+  refine ⟨?_, ?_, fun c => ⟨rfl, rfl⟩⟩ <;>
+    simp [projectGridInputCfg, projectGridInput, grid2dProjectedCfg, dropCentre, removeFlag]
+
+/-- the explicit keyword of `Grid2D.grid_2d_radial_projected_from` wins over the configuration value; without
+    it the configuration value decides. -/
+theorem explicit_flag_overrides_config (T : Trig α) (trunc : α → Nat) (extent : α × α × α × α)
+    (centre scales : α × α) (angle : α) (b c : Bool) :
+    grid2dProjectedCfg T trunc extent centre scales angle (some b) c
+        = dropCentre b (grid2dProjected T trunc extent centre scales angle)
+    ∧ grid2dProjectedCfg T trunc extent centre scales angle none c
+        = dropCentre c (grid2dProjected T trunc extent centre scales angle) :=
+  ⟨rfl, rfl⟩
+
+end config
 
 end C17
